@@ -89,7 +89,24 @@ def asyncapi(ctx, quick):
     return flags
 
 
-ITEMS = [("asyncapi", asyncapi), ("pipeline", pipeline), ("daemon", daemon), ("cache", cache), ("recordformat", recordformat)]
+def normalize(ctx, quick):
+    """The coalescer's normalisation step as an interpreter of normalizations.yaml (Normalize.tla): entry
+    selection, action, ECS categorisation and outcome, actor/object/how by first present field, source
+    address, ECS user/group mappings, warnings.  The table reaches TLC through a generic YAML decoder."""
+    import glob
+    prefix = ctx.path("nz", "t")
+    st = ctx.driver_json(["normalize-run", "--out-prefix", prefix, "--shards", 8, "--seed", ctx.seed, "--reps", 3 if quick else 80,
+                          "--repo", core.REPO], timeout=3000)["stats"]
+    flags, n = [], 0
+    for tp in sorted(glob.glob(prefix + "*.ndjson")):
+        f, k = core.judge_traces(ctx, "normalize", "NormalizeTrace", TRACE_CFG, tp, parts=1, xss="64m", timeout=3000)
+        flags += f
+        n += k
+    ctx.log("normalisation: %s; %d records judged; %d flags" % (st, n, len(flags)))
+    return flags
+
+
+ITEMS = [("normalize", normalize), ("asyncapi", asyncapi), ("pipeline", pipeline), ("daemon", daemon), ("cache", cache), ("recordformat", recordformat)]
 
 
 def run(tier, seed, only=None):
